@@ -1226,7 +1226,8 @@ class PhasedVcfWriter(VcfAugmenter):
                 # is genotype to be changed?
                 if pos in genotypes and genotypes[pos] != gt_type:
                     # call['GT'] = INT_TO_UNPHASED_GT[genotypes[pos]]
-                    call["GT"] = tuple(genotypes[pos].as_vector())
+                    # sorted, because _set_HP derives the HP order from a sorted GT
+                    call["GT"] = tuple(sorted(genotypes[pos].as_vector()))
                     variant: Union[BiallelicVcfVariant, MultiallelicVcfVariant]
                     if len(record.alts) > 1:
                         variant = MultiallelicVcfVariant(record.start, record.ref, record.alts)
